@@ -57,7 +57,7 @@ type actor struct {
 	Ops  []opSpec `json:"ops"`
 }
 type scenario struct {
-	Kind     string  `json:"kind"` // stress | oversized | activecall
+	Kind     string  `json:"kind"` // stress | oversized | activecall | configlock
 	Vers     uint16  `json:"vers"`
 	Mode     string  `json:"mode"`  // stream: one reader per end, variable messages; message: several readers, fixed-size messages
 	Clean    bool    `json:"clean"` // no deadlines, no Close/CloseWrite by actors: everything sent must arrive
@@ -494,6 +494,60 @@ func runOversized(sc *scenario) *result {
 	return res
 }
 
+// ---------------------------------------------------------------- Config.mutex is released on every path of the handshake
+// A server whose GetConfigForClient returns a shared Config with session
+// tickets disabled: after a handshake that Config's RWMutex must be free again
+// (SetSessionTicketKeys takes it exclusively; a leaked read lock blocks it, and
+// with it every later handshake, for ever).
+func runConfigLock(sc *scenario) *result {
+	setup()
+	res := &result{}
+	inner := &tls.Config{Certificates: []tls.Certificate{srvCert}, MinVersion: sc.Vers, MaxVersion: sc.Vers, SessionTicketsDisabled: true}
+	outer := &tls.Config{Certificates: []tls.Certificate{srvCert}, MinVersion: sc.Vers, MaxVersion: sc.Vers,
+		GetConfigForClient: func(*tls.ClientHelloInfo) (*tls.Config, error) { return inner, nil }}
+	for round := 0; round < 2; round++ {
+		rawC, rawS := net.Pipe()
+		cli := tls.Client(rawC, &tls.Config{InsecureSkipVerify: true, ServerName: "c34.example", MinVersion: sc.Vers, MaxVersion: sc.Vers})
+		srv := tls.Server(rawS, outer)
+		var wg sync.WaitGroup
+		wg.Add(2)
+		go func() { defer wg.Done(); io.Copy(io.Discard, srv) }()
+		go func() { defer wg.Done(); io.Copy(io.Discard, cli) }()
+		hs := make(chan error, 1)
+		go func() {
+			if err := cli.Handshake(); err != nil {
+				hs <- err
+				return
+			}
+			_, err := cli.Write([]byte("ping")) // through once the server's handshake is over
+			hs <- err
+		}()
+		select {
+		case err := <-hs:
+			if err != nil {
+				res.viol, res.desc = "handshake-failed", fmt.Sprintf("round %d: %v", round, err)
+			}
+		case <-time.After(30 * time.Second):
+			res.viol, res.desc = "config-lock-leak", fmt.Sprintf("handshake %d against a server whose GetConfigForClient returns a shared Config with SessionTicketsDisabled did not complete within 30 s", round+1)
+		}
+		rawC.Close()
+		rawS.Close()
+		wg.Wait()
+		if res.viol != "" {
+			return res
+		}
+		done := make(chan struct{})
+		go func() { inner.SetSessionTicketKeys([][32]byte{{1, 2, 3}}); close(done) }()
+		select {
+		case <-done:
+		case <-time.After(15 * time.Second):
+			res.viol, res.desc = "config-lock-leak", fmt.Sprintf("after %d handshake(s) SetSessionTicketKeys on the Config returned by GetConfigForClient (SessionTicketsDisabled) blocks: Config.ticketKeys left its read lock held", round+1)
+			return res
+		}
+	}
+	return res
+}
+
 // ---------------------------------------------------------------- activeCall interlock, step by step
 // A transport whose Write blocks until the harness releases it, so that a
 // tls.Conn.Write is "in flight" for as long as the script wants.
@@ -782,6 +836,14 @@ func runCase(c *vh.Ctx, sc *scenario) {
 			}
 		}
 		return
+	case "configlock":
+		r := runConfigLock(sc)
+		c.Eval(fmt.Sprintf("configlock-%x", sc.Vers))
+		c.Stat("configlock_runs", 1)
+		if r.viol != "" {
+			c.Violation(r.viol, r.desc, "stress", sc)
+		}
+		return
 	case "oversized":
 		r := runOversized(sc)
 		c.Eval(fmt.Sprintf("oversized-%x", sc.Vers))
@@ -855,6 +917,11 @@ func gen(c *vh.Ctx) {
 	// oversized post-handshake handshake message while reading and writing
 	for _, v := range []uint16{tls.VersionTLS13, tls.VersionTLS12} {
 		runCase(c, &scenario{Kind: "oversized", Vers: v, LimitMs: 30})
+	}
+	if !c.Race {
+		for _, v := range []uint16{tls.VersionTLS13, tls.VersionTLS12} {
+			runCase(c, &scenario{Kind: "configlock", Vers: v})
+		}
 	}
 	n := 36
 	if c.Thorough {
